@@ -918,4 +918,295 @@ theorem jeq_norm : ∀ (j : Json), j.finite = true → jeq j.norm j = true := by
         have hw := lookupLast_mem hl
         exact ⟨w, rfl, h1 ▸ ih _ hw (h _ hw)⟩
 
+
+/-! ### `IndexMap` key order -/
+
+theorem keys_insertAL {α} (k : String) (v : α) : ∀ (m : List (String × α)),
+    (insertAL k v m).map Prod.fst = addKey (m.map Prod.fst) k
+  | [] => by simp [insertAL, addKey]
+  | (k', v') :: rest => by
+    simp only [insertAL]
+    by_cases h : k' = k
+    · subst h; simp [addKey]
+    · have ih := keys_insertAL k v rest
+      have hne : (k == k') = false := by simp; exact fun e => h e.symm
+      simp only [h, if_false, List.map_cons, ih, addKey, List.contains_cons, hne, Bool.false_or]
+      split <;> simp
+
+theorem keys_insertAll {α} : ∀ (es m : List (String × α)),
+    (insertAll m es).map Prod.fst = (es.map Prod.fst).foldl addKey (m.map Prod.fst)
+  | [], _ => rfl
+  | (k, v) :: rest, m => by
+    have ih := keys_insertAll rest (insertAL k v m)
+    simp only [insertAll, List.foldl_cons, List.map_cons] at ih ⊢
+    rw [ih, keys_insertAL]
+
+theorem lookupLast_append {α} (k : String) : ∀ (a b : List (String × α)),
+    lookupLast k (a ++ b) = (lookupLast k b).or (lookupLast k a)
+  | [], b => by simp [lookupLast]
+  | (k', v) :: rest, b => by
+    simp only [List.cons_append, lookupLast_cons, lookupLast_append k rest b]
+    cases lookupLast k b <;> simp
+
+theorem insertAll_append {α} (m a b : List (String × α)) :
+    insertAll m (a ++ b) = insertAll (insertAll m a) b := by
+  simp [insertAll, List.foldl_append]
+
+/-! ### the statement loop -/
+
+theorem failCode_ne_zero {α} (r : Outcome α) : failCode r ≠ 0 := by
+  cases r <;> simp [failCode]
+
+theorem stepEvent_of_succeeded (outs : Outputs) (e : Event) (h : e.succeeded = true) :
+    stepEvent outs e = .next (storeEvent outs e) := by
+  cases e with
+  | expr r => simp only [Event.succeeded] at h; simp [stepEvent, h, storeEvent, Event.stored, Event.declaredValue]
+  | outIdent n r b p =>
+    simp only [Event.succeeded, Bool.and_eq_true, Bool.or_eq_true] at h
+    cases b with
+    | none => simp [stepEvent, h.1, storeEvent, Event.stored, Event.declaredValue]
+    | some v =>
+      have hp : p = true := by simpa using h.2
+      subst hp
+      simp only [stepEvent, Bool.not_true, Bool.false_eq_true, if_false, h.1, if_true, storeEvent,
+        Event.stored, Event.declaredValue, declare]
+      cases fromValue v <;> rfl
+  | outAssign n r p =>
+    simp only [Event.succeeded, Bool.and_eq_true] at h
+    obtain ⟨h1, hp⟩ := h
+    subst hp
+    cases r with
+    | ok v =>
+      simp only [stepEvent, Bool.not_true, Bool.false_eq_true, if_false, storeEvent, Event.stored,
+        Event.declaredValue, declare]
+      cases fromValue v <;> rfl
+    | _ => simp [Outcome.isOk] at h1
+  | comment => rfl
+
+theorem stepEvent_of_failed (outs : Outputs) (e : Event) (h : e.succeeded = false) :
+    ∃ c, c ≠ 0 ∧ stepEvent outs e = .exit c := by
+  cases e with
+  | expr r =>
+    simp only [Event.succeeded] at h
+    exact ⟨failCode r, failCode_ne_zero r, by simp [stepEvent, h]⟩
+  | outIdent n r b p =>
+    simp only [Event.succeeded, Bool.and_eq_false_iff, Bool.or_eq_false_iff] at h
+    cases b with
+    | none =>
+      rcases h with h | h
+      · exact ⟨failCode r, failCode_ne_zero r, by simp [stepEvent, h]⟩
+      · simp at h
+    | some v =>
+      cases p with
+      | false => exact ⟨1, by decide, by simp [stepEvent]⟩
+      | true =>
+        rcases h with h | h
+        · exact ⟨failCode r, failCode_ne_zero r, by simp [stepEvent, h]⟩
+        · simp at h
+  | outAssign n r p =>
+    simp only [Event.succeeded, Bool.and_eq_false_iff] at h
+    cases r with
+    | ok v =>
+      rcases h with h | h
+      · simp [Outcome.isOk] at h
+      · subst h; exact ⟨1, by decide, by simp [stepEvent]⟩
+    | err k => exact ⟨failCode (Outcome.err k : Outcome Value), failCode_ne_zero _, by simp [stepEvent]⟩
+    | panic s => exact ⟨failCode (Outcome.panic s : Outcome Value), failCode_ne_zero _, by simp [stepEvent]⟩
+    | fuel => exact ⟨failCode (Outcome.fuel : Outcome Value), failCode_ne_zero _, by simp [stepEvent]⟩
+  | comment => simp [Event.succeeded] at h
+
+theorem runEvents_all_ok : ∀ (evs : List Event) (outs : Outputs), (∀ e ∈ evs, e.succeeded = true) →
+    runEvents outs evs = ⟨0, some (writeOutputs (evs.foldl storeEvent outs))⟩
+  | [], _, _ => rfl
+  | e :: rest, outs, h => by
+    simp only [runEvents, stepEvent_of_succeeded outs e (h e List.mem_cons_self), List.foldl_cons]
+    exact runEvents_all_ok rest _ (fun x hx => h x (List.mem_cons_of_mem _ hx))
+
+theorem runEvents_failed : ∀ (evs : List Event) (outs : Outputs), (∃ e ∈ evs, e.succeeded = false) →
+    (runEvents outs evs).exit ≠ 0 ∧ (runEvents outs evs).object = none
+  | [], _, h => by obtain ⟨e, he, _⟩ := h; cases he
+  | e :: rest, outs, h => by
+    cases hs : e.succeeded with
+    | false =>
+      obtain ⟨c, hc, hstep⟩ := stepEvent_of_failed outs e hs
+      simp only [runEvents, hstep]
+      exact ⟨hc, trivial⟩
+    | true =>
+      simp only [runEvents, stepEvent_of_succeeded outs e hs]
+      apply runEvents_failed rest
+      obtain ⟨x, hx, hxs⟩ := h
+      rcases List.mem_cons.mp hx with e1 | hx
+      · subst e1; rw [hs] at hxs; cases hxs
+      · exact ⟨x, hx, hxs⟩
+
+theorem foldl_storeEvent : ∀ (evs : List Event) (outs : Outputs),
+    evs.foldl storeEvent outs = insertAll outs (evs.filterMap Event.stored)
+  | [], _ => rfl
+  | e :: rest, outs => by
+    simp only [List.foldl_cons, foldl_storeEvent rest]
+    cases hs : e.stored with
+    | none => simp [storeEvent, hs]
+    | some p => cases p with
+      | mk n sv => simp [storeEvent, hs, insertAll]
+
+theorem runStmts_eq_runEvents {Env Code} (ev : Evaluator Env Code) : ∀ (stmts : List (Stmt Code))
+    (env : Env) (outs : Outputs), runStmts ev env outs stmts = runEvents outs (trace ev env stmts)
+  | [], _, _ => rfl
+  | s :: rest, env, outs => by
+    simp only [runStmts, trace, runEvents]
+    cases stepEvent outs (observe ev env s).1 with
+    | next outs' => exact runStmts_eq_runEvents ev rest _ _
+    | exit c => rfl
+
+/-! ### input merging -/
+
+theorem mergeFrom_eq (pf : ParseFn) (pb : ParseBody) : ∀ (docs : List Json) (c : Nat)
+    (acc : List (String × Value)),
+    mergeFrom pf pb c acc docs = insertAll acc (entriesFrom pf pb c docs)
+  | [], _, _ => rfl
+  | j :: rest, c, acc => by
+    simp only [mergeFrom, entriesFrom, insertAll_append]
+    exact mergeFrom_eq pf pb rest _ _
+
+theorem entriesFrom_append (pf : ParseFn) (pb : ParseBody) : ∀ (a b : List Json) (c : Nat),
+    entriesFrom pf pb c (a ++ b) = entriesFrom pf pb c a ++ entriesFrom pf pb (counterAfter pf pb c a) b
+  | [], _, _ => rfl
+  | j :: rest, b, c => by
+    simp only [List.cons_append, entriesFrom, counterAfter, List.append_assoc]
+    rw [entriesFrom_append pf pb rest b]
+
+theorem norm_isObj (j : Json) : j.norm.isObj = j.isObj := by
+  cases j <;> rfl
+
+theorem sourceEntries_counter (pf : ParseFn) (pb : ParseBody) (c : Nat) (j : Json) :
+    (sourceEntries pf pb c j.norm).2 = c + (if unnamedSource pf pb j then 1 else 0) := by
+  unfold unnamedSource
+  rw [← norm_isObj]
+  cases hj : j.norm with
+  | obj ms => simp [sourceEntries, Json.isObj]
+  | _ =>
+    simp only [sourceEntries, Json.isObj, Bool.not_false, Bool.true_and]
+    split <;> simp_all [Outcome.isOk]
+
+theorem counterAfter_eq (pf : ParseFn) (pb : ParseBody) : ∀ (docs : List Json) (c : Nat),
+    counterAfter pf pb c docs = c + (docs.filter (unnamedSource pf pb)).length
+  | [], c => by simp [counterAfter]
+  | j :: rest, c => by
+    simp only [counterAfter, counterAfter_eq pf pb rest, sourceEntries_counter, List.filter_cons]
+    split <;> simp <;> omega
+
+
+theorem keysSorted_singleton {α} (k : String) (v : α) : keysSorted [(k, v)] = true := by
+  simp [keysSorted]
+
+theorem toJson_canonical : ∀ (sv : SV), (toJson sv).canonical = true := by
+  intro sv
+  induction sv using SV.ind with
+  | hnum x =>
+    simp only [toJson]
+    split
+    · simpa [Json.canonical]
+    · decide
+  | hlist xs ih =>
+    simp only [toJson, Json.canonical, canonicalList_iff, toJsonList_eq, List.mem_map]
+    rintro _ ⟨x, hx, rfl⟩; exact ih x hx
+  | hrecord r ih =>
+    simp only [toJson, Json.canonical, canonicalMembers_iff, toJsonMembers_eq, Bool.and_eq_true]
+    refine ⟨collectSorted_sorted _, ?_⟩
+    intro kv hkv
+    obtain ⟨v, hv, e⟩ := mem_mapVals (k := kv.1) (w := kv.2) (mem_collectSorted hkv)
+    rw [e]; exact ih _ hv
+  | hlambda as b => simp [toJson, Json.canonical, keysSorted, Json.canonicalMembers]
+  | hbuiltin n => simp [toJson, Json.canonical, keysSorted, Json.canonicalMembers]
+  | _ => rfl
+
+theorem norm_of_canonical : ∀ (j : Json), j.canonical = true → j.norm = j := by
+  intro j
+  induction j using Json.ind with
+  | harr xs ih =>
+    intro h; simp only [Json.canonical, canonicalList_iff] at h
+    simp only [Json.norm, normList_eq, Json.arr.injEq]
+    conv => rhs; rw [← List.map_id xs]
+    apply List.map_congr_left
+    intro x hx; exact ih x hx (h x hx)
+  | hobj ms ih =>
+    intro h; simp only [Json.canonical, canonicalMembers_iff, Bool.and_eq_true] at h
+    simp only [Json.norm, normMembers_eq, Json.obj.injEq]
+    have h1 : mapVals Json.norm ms = mapVals id ms := mapVals_congr (fun kv hkv => ih kv hkv (h.2 kv hkv))
+    have h2 : mapVals id ms = ms := by simp [mapVals]
+    rw [h1, h2, collectSorted_of_sorted ms h.1]
+  | _ => intros; rfl
+
+theorem fromJson_plain (pf : ParseFn) : ∀ (j : Json), j.noFnObj pf = true → (fromJson pf j).plain = true := by
+  intro j
+  induction j using Json.ind with
+  | harr xs ih =>
+    intro h; simp only [Json.noFnObj, noFnObjList_iff] at h
+    simp only [fromJson, SV.plain, plainList_iff, fromJsonList_eq, List.mem_map]
+    rintro _ ⟨x, hx, rfl⟩; exact ih x hx (h x hx)
+  | hobj ms ih =>
+    intro h
+    simp only [Json.noFnObj, noFnObjMembers_iff, Bool.and_eq_true, Option.isNone_iff_eq_none] at h
+    simp only [fromJson, h.1, SV.plain, plainRec_iff, fromJsonMembers_eq]
+    intro kv hkv
+    obtain ⟨v, hv, e⟩ := mem_mapVals (k := kv.1) (w := kv.2) hkv
+    rw [e]; exact ih _ hv (h.2 _ hv)
+  | _ => intros; rfl
+
+theorem fromValueList_valOf : ∀ (xs : List SV), (∀ x ∈ xs, fromValue (valOf x) = .ok x) →
+    fromValueList (xs.map valOf) = .ok xs
+  | [], _ => rfl
+  | x :: xs, h => by
+    simp only [List.map_cons, fromValueList, h x List.mem_cons_self,
+      fromValueList_valOf xs (fun y hy => h y (List.mem_cons_of_mem _ hy))]
+
+theorem fromValueRec_valOf : ∀ (r : List (String × SV)), (∀ kv ∈ r, fromValue (valOf kv.2) = .ok kv.2) →
+    fromValueRec (mapVals valOf r) = .ok r
+  | [], _ => rfl
+  | (k, v) :: r, h => by
+    simp only [mapVals_cons, fromValueRec, h (k, v) List.mem_cons_self,
+      fromValueRec_valOf r (fun y hy => h y (List.mem_cons_of_mem _ hy))]
+
+theorem fromValue_valOf : ∀ (sv : SV), sv.plain = true → fromValue (valOf sv) = .ok sv := by
+  intro sv
+  induction sv using SV.ind with
+  | hlist xs ih =>
+    intro h; simp only [SV.plain, plainList_iff] at h
+    simp only [valOf, valOfList_eq, fromValue, fromValueList_valOf xs (fun x hx => ih x hx (h x hx))]
+  | hrecord r ih =>
+    intro h; simp only [SV.plain, plainRec_iff] at h
+    simp only [valOf, valOfRec_eq, fromValue, fromValueRec_valOf r (fun kv hkv => ih kv hkv (h kv hkv))]
+  | hlambda => intro h; simp [SV.plain] at h
+  | hbuiltin => intro h; simp [SV.plain] at h
+  | _ => intros; rfl
+
+theorem stored_names_of_all_stored : ∀ (evs : List Event),
+    (∀ e ∈ evs, e.declaredName.isSome = true → e.stored.isSome = true) →
+    (evs.filterMap Event.stored).map Prod.fst = evs.filterMap Event.declaredName
+  | [], _ => rfl
+  | e :: rest, h => by
+    have ih := stored_names_of_all_stored rest (fun x hx => h x (List.mem_cons_of_mem _ hx))
+    have he := h e List.mem_cons_self
+    cases e with
+    | expr r => simpa [List.filterMap_cons, Event.stored, Event.declaredValue, Event.declaredName] using ih
+    | comment => simpa [List.filterMap_cons, Event.stored, Event.declaredValue, Event.declaredName] using ih
+    | outIdent n r b p =>
+      simp only [Event.declaredName, Option.isSome_some, forall_const] at he
+      cases b with
+      | none => simp [Event.stored, Event.declaredValue] at he
+      | some v =>
+        simp only [Event.stored, Event.declaredValue] at he
+        cases hf : fromValue v with
+        | ok sv => simp [Event.stored, Event.declaredValue, Event.declaredName, hf, ih]
+        | _ => simp [hf] at he
+    | outAssign n r p =>
+      simp only [Event.declaredName, Option.isSome_some, forall_const] at he
+      cases r with
+      | ok v =>
+        simp only [Event.stored, Event.declaredValue] at he
+        cases hf : fromValue v with
+        | ok sv => simp [Event.stored, Event.declaredValue, Event.declaredName, hf, ih]
+        | _ => simp [hf] at he
+      | _ => simp [Event.stored, Event.declaredValue] at he
+
 end Blots
